@@ -29,7 +29,7 @@ _ADDR_RUN = re.compile(r"[0-9A-Fa-f.:]+")
 
 def cases(ctx):
     rng = ctx.rng
-    for fcfg in ipref.file_configs(rng, ctx.per_shard(ctx.pick(500, 12000)), quick=ctx.quick):
+    for fcfg in ipref.file_configs(rng, ctx.per_shard(ctx.pick(500, 60000)), quick=ctx.quick):
         fcfg["B4"] = rng.choice([None, 0, 1, 8, 8, 31, 32, fcfg["B4"]])
         fcfg["B6"] = rng.choice([None, 0, 1, 8, 64, 127, 128, fcfg["B6"]])
         if rng.random() < 0.3:
